@@ -136,6 +136,8 @@ def build_world(case, scratch):
         if size == 0:
             continue
         data = content(d["cseed"], size)
+        if d["kind"] == "same-size" and data == content(f[2], f[1]):
+            data = bytes([(data[0] % 255) + 1]) + data[1:]      # a decoy must differ (1-byte files collide 1 in 255)
         sd = world["search"][d["dir"]]
         target = os.path.join(sd, "decoy" + str(d["cseed"] % 1000), os.path.basename(f[0]))
         os.makedirs(os.path.dirname(target), exist_ok=True)
@@ -174,6 +176,8 @@ def build_world(case, scratch):
             data = content(f[2], f[1])
         elif p["kind"] == "wrong":
             data = content(p["cseed"], f[1])
+            if data == content(f[2], f[1]) and data:
+                data = bytes([(data[0] % 255) + 1]) + data[1:]
         elif p["kind"] == "shorter":
             data = content(f[2], f[1])[:max(0, f[1] - 1 - p["cseed"] % max(1, f[1]))]
         elif p["kind"] == "shorter-wrong":
